@@ -7,9 +7,11 @@ sel=("$@")   # optional: test files (relative to the repo) to restrict the run a
 out="$(mktemp -d)"
 trap 'rm -rf "$out"' EXIT
 unset STATIC_FRAME_VERIF
+# BASELINE_N=0 runs sequentially (exactly the pinned command; xdist workers die when hypothesis prints a lone surrogate)
+if [ "${BASELINE_N:-12}" = "0" ]; then nflag=""; else nflag="-n ${BASELINE_N:-12}"; fi
 # keep hypothesis from recording new failing examples into /repo/.hypothesis (it would make random finds permanent)
 cp -r "$repo/.hypothesis" "$out/hyp" 2>/dev/null || cp -r /repo/.hypothesis "$out/hyp" 2>/dev/null; export HYPOTHESIS_STORAGE_DIRECTORY="$out/hyp"
-cd "$repo" && /venv/bin/python -m pytest -q -p no:cacheprovider --timeout=900 --continue-on-collection-errors -n 12 --junitxml="$out/r.xml" "${sel[@]}" >"$out/log" 2>&1
+cd "$repo" && /venv/bin/python -m pytest -q -p no:cacheprovider --timeout=900 --continue-on-collection-errors $nflag --junitxml="$out/r.xml" "${sel[@]}" >"$out/log" 2>&1
 /venv/bin/python - "$out/r.xml" "${sel[@]}" <<'PY'
 import json, sys, xml.etree.ElementTree as ET
 base = json.load(open('/root/.vp/BASELINE.json'))
